@@ -30,6 +30,9 @@ Model of the success/failure decision of an immutable upload (C06).
     (storage/server.py allocate_buckets; C22 `visible_iff_closed`).  So the layouts of the theorems
     (`layoutPairs pre …`) consist of complete shares.  The harness checks this input assumption on concurrent
     uploads of one file (every share an upload found must be a complete share in the server's final directory).
+  * `alloc` is the FINAL tracker set: what `get_shareholders` returns and `set_shareholders` turns into the
+    encoder's landlords.  The selector's happiness test is modelled on exactly this set
+    (`hp (mergeTrackers pre alloc) < happy`): the verdict is a function of the layout that is pushed.
 The happiness function is a parameter `hp`; `soh` is C08's model of `servers_of_happiness`
 (`Tahoe.Happiness.serversOfHappiness`, reused, not copied), the instance the driver and the concrete
 theorems use.  Mathlib-free, executable.
